@@ -1299,3 +1299,93 @@ example : ∃ g : Cone ℚ, g.pitch = 3 ∧
       = V3.add (g.srcPos (axisRot g.axis (3 / 5) (4 / 5)) (1 / 4) ⟨1, 2, 3⟩) (V3.smul 3 g.axis) :=
   ⟨⟨⟨2 / 7, 3 / 7, 6 / 7⟩, ⟨3 / 7, -6 / 7, 2 / 7⟩, ⟨1, 2, 3⟩, 5, 4, 3, 1 / 2, 1, .flat ⟨1, 0, 0⟩ ⟨0, 1, 0⟩⟩,
     rfl, (C19.helical_pitch_period _ _ _ _ ⟨0, 0, 0⟩ ⟨0, 0, 1, 0, 1, 0⟩).1⟩
+
+/-- `transform_system` (no `matrix` argument; used by every geometry constructor to carry the
+default frame along with a given axis / `det_pos_init` / `src_to_det_init`) AS CODED — zero
+tests, the `np.allclose` snap to the identity, and `rotation_matrix_from_to` with all its
+branches — applies a ROTATION to the default vectors, for all inputs on which it does not
+raise: derived detector axes are orthonormal and right-handed like the defaults.  In the
+non-snapped 2-d case the rotation takes the normalised default to the normalised given vector.
+CONDITIONAL on `sqrt` being a square root at the squared norms that are normalised. -/
+theorem C19.transform_system_rotation {K : Type} [Field K] [LinearOrder K] [IsStrictOrderedRing K]
+    (sqrt : K → K) (tol2 atol rtol cpi spi : K) (htol : 0 < tol2)
+    (hpi : cpi * cpi + spi * spi = 1) :
+    (∀ (d p : V2 K) (M : M2 K),
+      sqrt d.normSq * sqrt d.normSq = d.normSq → sqrt p.normSq * sqrt p.normSq = p.normSq →
+      tsMatrix2 sqrt tol2 atol rtol d p = some M →
+      IsRot2 M ∧ (M = M2.one ∨ M.mulVec (V2.normalize sqrt d) = V2.normalize sqrt p)) ∧
+    (∀ (d p : V3 K) (M : M3 K),
+      sqrt d.normSq * sqrt d.normSq = d.normSq → sqrt p.normSq * sqrt p.normSq = p.normSq →
+      sqrt (perp3 (V3.normalize sqrt d)).normSq * sqrt (perp3 (V3.normalize sqrt d)).normSq
+        = (perp3 (V3.normalize sqrt d)).normSq →
+      tsMatrix3 sqrt tol2 atol rtol cpi spi d p = some M → IsRot3 M) := by
+  have one2 : IsRot2 (M2.one : M2 K) := by
+    constructor
+    · ext <;> simp [M2.one, M2.transpose, M2.mul]
+    · simp [M2.one, M2.det]
+  have one3 : IsRot3 (M3.one : M3 K) := by
+    constructor
+    · ext <;> simp [M3.one, M3.transpose, M3.mul]
+    · simp [M3.one, M3.det]
+  constructor
+  · intro d p M hd hp h
+    unfold tsMatrix2 at h
+    split_ifs at h with h00 h0
+    · simp only [Option.some.injEq] at h
+      rw [← h]; exact ⟨one2, Or.inl rfl⟩
+    dsimp only at h
+    split_ifs at h with h1
+    · simp only [Option.some.injEq] at h
+      rw [← h]; exact ⟨one2, Or.inl rfl⟩
+    · unfold rotFromToCode2 at h
+      split_ifs at h with h2
+      push Not at h2
+      have hd0 : d.normSq ≠ 0 := ne_of_gt (lt_of_lt_of_le htol h2.1)
+      have hp0 : p.normSq ≠ 0 := ne_of_gt (lt_of_lt_of_le htol h2.2)
+      have hu := (C19.normalize_unit sqrt).1 d hd0 hd
+      have hv := (C19.normalize_unit sqrt).1 p hp0 hp
+      simp only [Option.some.injEq] at h
+      rw [← h]
+      have := C19.from_to_maps_2d _ _ hu hv
+      exact ⟨this.2.1, Or.inr this.1⟩
+  · intro d p M hd hp hpp h
+    unfold tsMatrix3 at h
+    split_ifs at h with h00 h0
+    · simp only [Option.some.injEq] at h
+      rw [← h]; exact one3
+    dsimp only at h
+    split_ifs at h with h1
+    · simp only [Option.some.injEq] at h
+      rw [← h]; exact one3
+    · exact C19.from_to_code_rotation sqrt tol2 cpi spi d p M htol hpi hd hp hpp h
+
+/-- non-trivial instances: `det_pos_init = (3, 4)` is not snapped: the default frame is
+rotated; `(0, 2)` is a dilation of the default `(0, 1)`: identity. -/
+example : tsMatrix2 (fun s : ℚ => if s = 25 then 5 else if s = 4 then 2 else 1)
+      (1 / 10 ^ 20) (1 / 10 ^ 8) (1 / 10 ^ 5) ⟨0, 1⟩ ⟨3, 4⟩ = some ⟨4 / 5, 3 / 5, -(3 / 5), 4 / 5⟩ ∧
+    tsMatrix2 (fun s : ℚ => if s = 25 then 5 else if s = 4 then 2 else 1)
+      (1 / 10 ^ 20) (1 / 10 ^ 8) (1 / 10 ^ 5) ⟨0, 1⟩ ⟨0, 2⟩ = some M2.one := by
+  constructor
+  · simp [tsMatrix2, closeTo, absK, rotFromToCode2, rotFromTo2, perp2, V2.normalize, V2.normSq,
+      V2.dot, V2.smul]
+    norm_num
+  · simp [tsMatrix2, closeTo, absK, V2.normSq, V2.dot]
+    norm_num
+
+/-- FINDING F19t on the model: the snap of `transform_system` compares with an ABSOLUTE
+tolerance (`np.allclose`, `atol = 1e-8`) that ignores the length of the given vector, so a
+SHORT principal vector is treated as "the default up to dilation" whatever its direction:
+for `src_to_det_init = (3e-9, 4e-9)` (unit direction `(3/5, 4/5)`, 37° off the default
+`(0, 1)`) the default frame is NOT rotated, i.e. the second alternative of
+`C19.transform_system_rotation` genuinely fails there. -/
+theorem C19.transform_system_snap_fails :
+    ∃ (sqrt : ℚ → ℚ) (p : V2 ℚ), sqrt p.normSq * sqrt p.normSq = p.normSq ∧
+      sqrt (1 : ℚ) = 1 ∧ V2.normalize sqrt p = ⟨3 / 5, 4 / 5⟩ ∧
+      tsMatrix2 sqrt (1 / 10 ^ 20) (1 / 10 ^ 8) (1 / 10 ^ 5) ⟨0, 1⟩ p = some M2.one ∧
+      (M2.one : M2 ℚ).mulVec (V2.normalize sqrt ⟨0, 1⟩) ≠ V2.normalize sqrt p := by
+  refine ⟨fun s => if s = 1 then 1 else 5 / 10 ^ 9, ⟨3 / 10 ^ 9, 4 / 10 ^ 9⟩, ?_, ?_, ?_, ?_, ?_⟩
+  · norm_num [V2.normSq, V2.dot]
+  · norm_num
+  · norm_num [V2.normalize, V2.normSq, V2.dot, V2.smul]
+  · norm_num [tsMatrix2, closeTo, absK, V2.normSq, V2.dot]
+  · norm_num [V2.normalize, V2.normSq, V2.dot, V2.smul, M2.one, M2.mulVec]
